@@ -150,10 +150,14 @@ def checkK (c : EncCase) (r : EncOk) (d : Decoded) : Option String :=
 /-- C10: no listed symbol of smaller capacity admits a legal encoding found by the search;
 the witness stream is part of the message -/
 def checkO (c : EncCase) (sizeCap : Option Nat) : Option String :=
-  if (c.macros ∧ macroHeadOf c.input ≠ 0) ∨ c.fnc1 ∨ c.eci.isSome then none else
+  if c.eci.isSome then none else
   let list := symbolList (maskList c.mask)
   let caps := list.map dataCw
-  match DM.Spec.Opt.search c.input c.modes caps with
+  -- the header codeword in front of the data: FNC1 start, or the Macro codeword of an enveloped message
+  let mh := if c.macros ∧ !c.fnc1 then macroHeadOf c.input else 0
+  let hdr := if c.fnc1 then 1 else mh
+  let body := if mh ≠ 0 then (c.input.drop 7).take (c.input.length - 9) else c.input
+  match DM.Spec.Opt.searchH hdr c.input body c.modes caps with
   | none => none
   | some a =>
     let wcap := caps.getD a.capIndex 0
